@@ -42,17 +42,22 @@ REPLIES = OneOf(DictOf(result=Any, error=Const(None)), DictOf(result=Any), DictO
 
 @contract('bitcoin.rpc:BaseProxy._get_response', name='get_response_any', prop=P)
 def get_response_any(self: Any) -> REPLIES:
-    """ASSUMED at call sites (transport + JSON parsing are outside the model): some reply object"""
+    """ASSUMED at call sites (transport + JSON parsing are outside the model): some reply object, or the error raised
+    for a missing / non-JSON HTTP response, or a transport error"""
     option(callable=True, assumed=True)
+    raises(rpc.JSONRPCError)
+    raises(OSError)
 
 
 @contract('bitcoin.rpc:BaseProxy._call', name='call_ids_increase', prop=P)
 def call_ids_increase(self: Obj(rpc.BaseProxy, heap=True, _BaseProxy__id_count=Int, _BaseProxy__conn=Obj(Conn, heap=True),
                                 _BaseProxy__url=Any, _BaseProxy__auth_header=Optional(Bytes)),
                       service_name: Str):
-    """every call uses a request id one larger than the previous one, whatever the reply is"""
+    """every call uses a request id one larger than the previous one, whatever the reply is - also when the reply is
+    an error, is missing or is not JSON, or the transport fails after the request was posted (the id is consumed)"""
     option(only=['get_response_any'])
-    raises(rpc.JSONRPCError)
+    raises(rpc.JSONRPCError, ensures=self._BaseProxy__id_count == old(self._BaseProxy__id_count) + 1)
+    raises(OSError, ensures=self._BaseProxy__id_count == old(self._BaseProxy__id_count) + 1)
     ensures(self._BaseProxy__id_count == old(self._BaseProxy__id_count) + 1)
 
 
@@ -171,6 +176,33 @@ def tx_crosses_hex_exactly(self: Any, tx: Obj(CTransaction), *, conn: Any):
             and sent_params(conn, 1)[1][0] == rev_hex(tx.GetTxid()) and ids_strictly_increase(conn))
 
 
+@contract('bitcoin.rpc:Proxy.getrawtransaction', name='hash_parameters_core_style', prop=P)
+def hash_parameters_core_style(self: Any, txid: Bytes(len=32), verbose: Bool, block_hash: Bytes(len=32), *, conn: Any, tx: Any):
+    """BOUNDED: every hash given to a call (transaction id, block hash, outpoint) is posted in Core's byte-reversed hex,
+    and every hash in a reply comes back as the bytes that were reversed on the wire"""
+    option(bounded=300)
+    ensures(sent_params(conn, 0)[1] == [rev_hex(txid), 1 if verbose else 0, rev_hex(block_hash)]
+            and (result['tx'] if verbose else result).serialize() == tx.serialize()
+            and (not verbose or result['blockhash'] == block_hash)
+            and self.gettxout(COutPoint(txid, 3))['bestblock'] == block_hash
+            and sent_params(conn, 1)[1] == [rev_hex(txid), 3, True]
+            and self.lockunspent(False, [COutPoint(txid, 1), COutPoint(block_hash, 0)]) is True
+            and sent_params(conn, 2)[1] == [False, [{'txid': rev_hex(txid), 'vout': 1}, {'txid': rev_hex(block_hash), 'vout': 0}]]
+            and self.getbestblockhash() == block_hash
+            and self.getrawtransaction(txid).serialize() == tx.serialize()
+            and sent_params(conn, 4)[1] == [rev_hex(txid), 0]
+            and ids_strictly_increase(conn) and len(conn.requests) == 5)
+
+
+@contract('bitcoin.rpc:BaseProxy._call', name='ids_increase_over_failures', prop=P)
+def ids_increase_over_failures(self: Any, service_name: Str, *, conn: Any, n_before: Int):
+    """BOUNDED: request ids strictly increase over the life of a proxy, also across calls that failed (error replies,
+    missing results, non-JSON or empty bodies, no HTTP response at all)"""
+    option(bounded=300)
+    raises(rpc.JSONRPCError)
+    ensures(ids_strictly_increase(conn) and len(conn.requests) == n_before + 1)
+
+
 @contract('bitcoin.rpc:BaseProxy._call', name='error_replies_native', prop=P)
 def error_replies_native(self: Any, service_name: Str, *, conn: Any, body: Str, expect: Any):
     """BOUNDED: real reply bodies (registered and unregistered codes, non-dict errors, missing result, non-JSON)"""
@@ -228,6 +260,29 @@ def _build_c19(inputs, chain):
         p, conn = _r.make_proxy(['{"result": "%s", "error": null, "id": 1}' % _r.rev_hex(tx.GetTxid()),
                                  '{"result": "%s", "error": null, "id": 2}' % tx.serialize().hex()])
         return {'self': p, 'conn': conn, 'tx': tx}
+    if kind == 'hashes':
+        tx = _replay.decode_value(inputs['tx'])
+        txid = bytes(inputs['txid']['__bytes__'])
+        bh = bytes(inputs['block_hash']['__bytes__'])
+        verbose = inputs['verbose']
+        first = json.dumps({'hex': tx.serialize().hex(), 'txid': _r.rev_hex(txid), 'version': 1, 'locktime': 0, 'vin': [],
+                            'vout': [], 'blockhash': _r.rev_hex(bh)}) if verbose else '"%s"' % tx.serialize().hex()
+        p, conn = _r.make_proxy([
+            '{"result": %s, "error": null, "id": 1}' % first,
+            '{"result": {"bestblock": "%s", "confirmations": 1, "value": 1.5, "scriptPubKey": {"hex": "51"}, "coinbase": false}, "error": null, "id": 2}' % _r.rev_hex(bh),
+            '{"result": true, "error": null, "id": 3}',
+            '{"result": "%s", "error": null, "id": 4}' % _r.rev_hex(bh),
+            '{"result": "%s", "error": null, "id": 5}' % tx.serialize().hex()])
+        return {'self': p, 'conn': conn, 'txid': txid, 'verbose': verbose, 'block_hash': bh, 'tx': tx}
+    if kind == 'idseq':
+        bodies = inputs['bodies']
+        p, conn = _r.make_proxy(bodies)
+        for _ in bodies[:-1]:
+            try:
+                p._call('getinfo')
+            except rpc.JSONRPCError:
+                pass
+        return {'self': p, 'conn': conn, 'service_name': 'getinfo', 'n_before': len(bodies) - 1}
     if kind == 'error':
         p, conn = _r.make_proxy([inputs['body']])
         return {'self': p, 'conn': conn, 'service_name': 'getinfo', 'body': inputs['body'], 'expect': inputs['expect']}
@@ -285,4 +340,17 @@ _replay.GENERATORS.update({
                                                    'raw': _gen_block_raw(rng)},
     'tx_crosses_hex_exactly': lambda rng: {'__build__': 'c19', '__kind__': 'rawtx', 'tx': _desc_tx(_mk_tx(rng, witness=rng.random() < 0.4))},
     'error_replies_native': _gen_error,
+    'hash_parameters_core_style': lambda rng: {'__build__': 'c19', '__kind__': 'hashes', 'tx': _desc_tx(_mk_tx(rng, witness=rng.random() < 0.3)),
+                                               'txid': {'__bytes__': list(_rb(rng, 32)), 'cls': 'builtins:bytes'},
+                                               'block_hash': {'__bytes__': list(_rb(rng, 32)), 'cls': 'builtins:bytes'},
+                                               'verbose': rng.random() < 0.5},
+    'ids_increase_over_failures': lambda rng: {'__build__': 'c19', '__kind__': 'idseq',
+                                               'bodies': [_gen_body(rng) for _ in range(rng.randint(2, 6))]},
 })
+
+
+def _gen_body(rng):
+    return rng.choice(['{"result": 1, "error": null, "id": 1}', '{"result": 1, "error": null, "id": 1}',
+                       '{"result": null, "error": {"code": -8, "message": "m"}, "id": 1}',
+                       '{"result": 7, "error": "boom", "id": 1}', '{"error": null, "id": 1}',
+                       '<html>502 Bad Gateway</html>', '', '{"result": ', None, None])
